@@ -62,6 +62,12 @@ def candidates(rng, n):
                   variant("Plain", ser=["ini", "INI."])]
             cands.append(enum(did, vs[::-1] if order else vs, aci=eaci))
             did += 1
+    # `default_with` only tells EnumString how to fill the payload when the variant is parsed: the variant keeps its name everywhere
+    cands.append(enum(did, [variant("TextBox", "tuple", [field("String")], dwith="dw_string"), variant("Point", "tuple", [field("u8")], dwith="dw_u8", ser=["pt"]),
+                            variant("Plain")], style="kebab-case"))
+    did += 1
+    cands.append(enum(did, [variant("Plain"), variant("Flag", "tuple", [field("bool")], dwith="dw_bool")]))
+    did += 1
     for k in range(n):
         cands.append(SC.names_def(rng, did, allow_prefix=False))
         did += 1
